@@ -233,6 +233,36 @@ func exec(r *engine.Rec, name string) func(path []Op, op Op) seqx.Step {
 		if s.GetSize() > int(s.GetCapacity()) {
 			return viol("size exceeds capacity after "+op.K, fmt.Sprint(s.GetSize(), s.GetCapacity()))
 		}
+		if why := seqx.Interference(func() (func() string, func(), bool) {
+			st, _, out := construct(path[0])
+			if out.Panicked {
+				return nil, nil, false
+			}
+			for _, p := range path[1:] {
+				apply(p, st)
+			}
+			return func() string { return common.View(st) }, func() { apply(op, st) }, true
+		}, []func() func() string{
+			func() func() string {
+				b := col.Stack[int](common.N()).MakeWithCapacity(3)
+				b.AddValue(71)
+				b.AddValue(72)
+				return func() string { return common.View(b) }
+			},
+			func() func() string {
+				b := col.Stack[int](common.N()).MakeFromArray([]int{81, 82, 83})
+				b.RemoveAll()
+				b.AddValue(84)
+				return func() string { return common.View(b) }
+			},
+			func() func() string {
+				b := col.Stack[int](common.N()).MakeFromSequence(col.List[int](common.N()).MakeFromArray([]int{91, 92}))
+				b.RemoveTop()
+				return func() string { return common.View(b) }
+			},
+		}); why != "" {
+			return viol("stacks of one element type are not independent of each other", why)
+		}
 		if why := common.TwoLiveIterators[int](func() age.IteratorLike[int] { return s.GetIterator() }, nm.vals, true); why != "" {
 			return viol("two iterators over one stack influence each other", why)
 		}
